@@ -85,10 +85,12 @@ def monitor_run(cfg, extra_interventions=None):
     """ Run a sim function by function with the global generators watched.
         Returns (sim, readers, silent): readers = {(class, method): {np functions}} that called a global NumPy random
         function (exact, from the call stack); silent = plan labels after which a hidden channel had moved without such a call """
-    sim = impl.build_sim(cfg, extra_interventions=extra_interventions)
     silent = []
     with trace_global_reads() as tr:
-        sim.init()
+        if 'c20case' in cfg:
+            sim = make_sim(cfg)
+        else:
+            sim = impl.build_sim(cfg, extra_interventions=extra_interventions); sim.init()
         plan = sim.loop.plan
         for i in range(len(plan)):
             before = channels(); n0 = len(tr.reads)
@@ -160,8 +162,54 @@ def correspond(ctx):
             ctx.broke('correspondence', 'C01.seed-hashseed', f'distribution names / seeds differ in a fresh interpreter with another PYTHONHASHSEED: {d}', data=cfg)
 
 
-def seeds_inproc(cfg):
+def make_sim(cfg):
+    """ an INITIALISED real sim: a harness/impl.py configuration, or (key `c20case`) an intervention / product
+        scenario of harness/props/c20_impl.py (vaccination, screening with a Dx product, treat_num with a Tx product) """
+    if 'c20case' in cfg:
+        from harness.props import c20_impl
+        return c20_impl.build(cfg['c20case'])
     sim = impl.build_sim(cfg); sim.init()
+    return sim
+
+
+def gen_product_cfg(rng, kind):
+    from harness.props import c20_impl
+    for _ in range(20):
+        case = c20_impl.gen_case(rng, kind=kind)
+        if case.get('delivery') != 'campaign': break      # campaign_screening / campaign_triage crash upstream (no coverage_dist)
+    if case.get('vaccine', {}).get('kind') == 'aon': case['vaccine']['kind'] = 'leaky'
+    if kind == 'pipeline':
+        # imperfect test feeding a capacity-limited treatment: people in BOTH disease states are tested and treated on the
+        # same step, so the order in which a product walks its string-keyed state table decides who gets which stream
+        for _ in range(50):
+            case = c20_impl.gen_case(rng, kind='treat')
+            if case.get('pipeline'): break
+        case['pipeline']['dx']['rows'] = [('susceptible', [0.25, 0.75]), ('infected', [0.8, 0.2])]
+        case['pipeline']['sched'] = dict(start_year=2000 + 1, end_year=2000 + 4, prob=[0.9], annual_prob=False)
+        states = ['susceptible', 'infected'] + (['recovered'] if case['sim']['disease'] == 'sir' else [])
+        case['tx']['rows'] = [(st, 0.6, 'susceptible') for st in states]
+        case['elig'] = 'screen_pos_alive'; case['treat_prob'] = 1.0; case['capacity'] = None
+        return dict(c20case=case)
+    if kind == 'treat' and not case.get('pipeline'):
+        case['elig'] = 'infected'; case['treat_prob'] = 1.0     # somebody accepts on the very first step
+        if case.get('capacity') == 0: case['capacity'] = 5
+    return dict(c20case=case)
+
+
+def gen_cfg(rng, k=0, products=None):
+    """ every third configuration uses interventions with products (their loops over disease states / queues are
+        process-history sensitive in ways plain disease+network sims are not) """
+    if products or (products is None and k % 3 == 2):
+        from harness.props import c20_impl
+        return gen_product_cfg(rng, rng.choice(['treat', 'treat', 'screen', 'vx']))   # (all-or-nothing vaccines read np.random: recorded finding, avoided)
+    cfg = impl.gen_sim_config(rng, small=True, allow_global_readers=(k % 3 == 0))
+    if any(n['type'] in ('erdosrenyi', 'disk') for n in cfg['networks']) and cfg['demographics'] and False:
+        cfg['demographics'] = []
+    return cfg
+
+
+def seeds_inproc(cfg):
+    sim = make_sim(cfg)
     return [[t, int(d.seed)] for t, d in sim.dists.dists.items()]
 
 
@@ -169,7 +217,7 @@ def seeds_inproc(cfg):
 # differential runs
 
 def run_ref(cfg):
-    sim = impl.build_sim(cfg); sim.init(); sim.run()
+    sim = make_sim(cfg); sim.run()
     return snap.everything(sim)
 
 
@@ -178,26 +226,26 @@ def run_history(cfg, hist, rng):
     import starsim as ss
     kind = hist['kind']
     if kind == 'perturb-before-run':
-        sim = impl.build_sim(cfg); sim.init()
+        sim = make_sim(cfg)
         np.random.random(hist['n']); pyrandom.random()
         sim.run(); return snap.everything(sim)
     if kind == 'perturb-at-boundary':
-        sim = impl.build_sim(cfg); sim.init()
+        sim = make_sim(cfg)
         k = min(hist['k'], len(sim.loop.plan) - 1)
         for _ in range(k): sim.loop.run_one_step()
         np.random.random(hist['n']); pyrandom.random()
         sim.run(); return snap.everything(sim)
     if kind == 'other-sim-between':
-        sim = impl.build_sim(cfg); sim.init()
-        other = impl.build_sim(hist['other']); other.init(); other.run()
+        sim = make_sim(cfg)
+        other = make_sim(hist['other']); other.run()
         sim.run(); return snap.everything(sim)
     if kind == 'other-sim-before':
-        other = impl.build_sim(hist['other']); other.run()
+        other = make_sim(hist['other']); other.run()
         np.random.random(3)
-        sim = impl.build_sim(cfg); sim.init(); sim.run(); return snap.everything(sim)
+        sim = make_sim(cfg); sim.run(); return snap.everything(sim)
     if kind == 'twin-copy':
         import sciris as sc
-        sim = impl.build_sim(cfg); sim.init()
+        sim = make_sim(cfg)
         twin = sc.dcp(sim)
         sim.run(); twin.run(); return snap.everything(twin)
     raise ValueError(kind)
@@ -207,14 +255,15 @@ WORKER = r'''
 import sys, json, numpy as np
 sys.path.insert(0, %(verif)r)
 from harness import impl, snap
+from harness.props import c01
 cfg = json.loads(sys.argv[1]); what = sys.argv[2]
 if what == 'seeds':
-    sim = impl.build_sim(cfg); sim.init()
+    sim = c01.make_sim(cfg)
     print('OUT' + json.dumps([[t, int(d.seed)] for t, d in sim.dists.dists.items()]))
 else:
     import hashlib
     np.random.random(11)
-    sim = impl.build_sim(cfg); sim.init(); sim.run()
+    sim = c01.make_sim(cfg); sim.run()
     s = snap.everything(sim)
     print('OUT' + json.dumps({k: hashlib.sha1(np.ascontiguousarray(v).tobytes()).hexdigest() + str(v.shape) for k, v in s.items()}))
 '''
@@ -242,20 +291,34 @@ def gen_history(rng, cfg):
     kind = rng.choice(['perturb-before-run', 'perturb-at-boundary', 'perturb-at-boundary', 'other-sim-between', 'other-sim-before', 'twin-copy'])
     h = dict(kind=kind, n=rng.randint(1, 9), k=rng.randint(1, 200))
     if 'other' in kind:
-        h['other'] = impl.gen_sim_config(rng, small=True, allow_global_readers=True)
+        # the other simulation may use the same module classes (class-level state is shared within a process)
+        h['other'] = gen_cfg(rng, products=True) if 'c20case' in cfg else impl.gen_sim_config(rng, small=True, allow_global_readers=True)
     return h
 
 
-def attribute(cfg, what):
-    """ turn a differential failure into failures whose signatures name the responsible readers (exact, from call stacks) """
+def attribute(cfg, what, channel='global-generator'):
+    """ Turn a differential failure into failures whose signatures name what is responsible.
+        A reader of the global NumPy generator explains the difference only if perturbing that generator ALONE changes
+        the results of this configuration; otherwise the difference came through another channel (hash seed, class-level
+        state left by another simulation, …) and is reported under that channel, never under a reader's name. """
+    explained = False
     try:
-        sim, readers, silent = monitor_run(cfg)
+        ref = run_ref(cfg)
+        for h in (dict(kind='perturb-before-run', n=5, k=1), dict(kind='perturb-at-boundary', n=3, k=7)):
+            if snap.diff(ref, run_history(cfg, h, None)):
+                explained = True; break
     except Exception:
-        readers, silent = {}, []
-    classes = sorted({cls or fn for (cls, fn) in readers})
-    if not classes:
-        return [dict(signature=dict(oracle='nondeterminism', reader='none-detected'), what=what)]
-    return [dict(signature=dict(oracle='global-reader', reader=c), what=f'{what} — `{c}` reads the process-global NumPy generator') for c in classes]
+        explained = False
+    if explained:
+        try:
+            sim, readers, silent = monitor_run(cfg)
+        except Exception:
+            readers = {}
+        classes = sorted({cls or fn for (cls, fn) in readers})
+        if classes:
+            return [dict(signature=dict(oracle='global-reader', reader=c), what=f'{what} — `{c}` reads the process-global NumPy generator') for c in classes]
+        return [dict(signature=dict(oracle='nondeterminism', channel='global-generator', reader='none-detected'), what=what)]
+    return [dict(signature=dict(oracle='nondeterminism', channel=channel), what=f'{what} — not explained by the global NumPy generator (channel: {channel})')]
 
 
 def oracle_diff(cfg, hist, rng=None):
@@ -270,32 +333,40 @@ def oracle_diff(cfg, hist, rng=None):
 def search(ctx):
     import starsim as ss
     # differential histories, half of the configurations avoiding the known readers
-    for k in range(ctx.budget(10, 80)):
-        cfg = impl.gen_sim_config(ctx.rng, small=True, allow_global_readers=(k % 3 == 0))
-        if any(n['type'] in ('erdosrenyi', 'disk') for n in cfg['networks']) and cfg['demographics']:
-            cfg['demographics'] = []   # edges to removed agents read uninitialised memory (C14 finding): not this property's subject
+    for k in range(ctx.budget(12, 90)):
+        cfg = gen_cfg(ctx.rng, k)
         hist = gen_history(ctx.rng, cfg)
+        if k in (1, 2):
+            # always exercise: a capacity-limited treatment sim, with another treatment sim run before / in between
+            cfg = gen_product_cfg(ctx.rng, 'treat')
+            hist = dict(kind=['other-sim-before', 'other-sim-between'][k - 1], n=3, k=1, other=gen_product_cfg(ctx.rng, 'treat'))
         try:
             msg = oracle_diff(cfg, hist)
         except Exception as e:
             ctx.count('oracle_exceptions'); continue
         ctx.count('differential_runs'); ctx.count('history:' + hist['kind'])
         if msg:
-            for f in attribute(cfg, msg):
+            for f in attribute(cfg, msg, channel=hist['kind']):
                 ctx.fail(f['signature'], f['what'], dict(kind='diff', cfg=cfg, hist=hist))
     # fresh interpreter / other hash seed (expensive: few)
-    for k in range(ctx.budget(1, 8)):
-        cfg = impl.gen_sim_config(ctx.rng, small=True)
-        if any(n['type'] in ('erdosrenyi', 'disk') for n in cfg['networks']): cfg['demographics'] = []
-        a = digest(run_ref(cfg))
-        b = run_subprocess(cfg, 'run', hashseed=ctx.rng.randint(1, 10**6))
-        ctx.count('subprocess_runs')
-        if b is None:
-            ctx.count('subprocess_failed'); continue
-        bad = sorted(k2 for k2 in set(a) | set(b) if a.get(k2) != b.get(k2))
-        if bad:
-            for f in attribute(cfg, f'results differ in a fresh interpreter (other PYTHONHASHSEED, global draws before the sim): {bad[:4]}'):
-                ctx.fail(f['signature'], f['what'], dict(kind='subprocess', cfg=cfg))
+    for k in range(ctx.budget(3, 12)):
+        # products loop over string-keyed tables (disease states): the hash-seed-sensitive part
+        cfg = gen_product_cfg(ctx.rng, 'pipeline') if k % 3 != 0 else gen_cfg(ctx.rng, products=False)
+        try:
+            a = digest(run_ref(cfg))
+        except Exception as e:
+            ctx.count('oracle_exceptions'); ctx.notes['last_oracle_exception'] = f'{type(e).__name__}: {e}'; continue
+        # two fixed, different hash seeds (string-set orders differ between them) plus the in-process run
+        for hs in ((1, 2) if 'c20case' in cfg else (ctx.rng.randint(3, 10**6),)):
+            b = run_subprocess(cfg, 'run', hashseed=hs)
+            ctx.count('subprocess_runs')
+            if b is None:
+                ctx.count('subprocess_failed'); continue
+            bad = sorted(k2 for k2 in set(a) | set(b) if a.get(k2) != b.get(k2))
+            if bad:
+                for f in attribute(cfg, f'results differ in a fresh interpreter (PYTHONHASHSEED={hs}, global draws before the sim): {bad[:4]}', channel='fresh-interpreter/hash-seed'):
+                    ctx.fail(f['signature'], f['what'], dict(kind='subprocess', cfg=cfg))
+                break
     # changing the seed changes every distribution's stream
     for k in range(ctx.budget(3, 20)):
         cfg = impl.gen_sim_config(ctx.rng, small=True)
@@ -311,8 +382,8 @@ def replay(ctx, data):
     if k == 'diff':
         return oracle_diff(data['cfg'], data['hist']) is not None
     if k == 'subprocess':
-        a = digest(run_ref(data['cfg'])); b = run_subprocess(data['cfg'], 'run', hashseed=4242)
-        return b is not None and a != b
+        a = digest(run_ref(data['cfg']))
+        return any(b is not None and a != b for b in (run_subprocess(data['cfg'], 'run', hashseed=hs) for hs in (1, 2)))
     if k == 'seedchange':
         s1 = dict(seeds_inproc(data['cfg'])); s2 = dict(seeds_inproc(data['cfg2']))
         return any(s1[t] == s2.get(t) for t in s1)
